@@ -1202,6 +1202,27 @@ def use_path_heads_are_guarded(ctx, rid):
                     for sw, tt, ff in bool_branches(f, d.dest[0]):
                         if ff is not None and edge_dominates(f, (sw, ff), c.bb):
                             guarded = True
+            if not guarded:
+                # the true edge of a length comparison that implies len > index: `path.len() == 1`, `>= 1`, `> 0`
+                idx = c.args[1][2]
+                lens = {d.dest[0] for d in f.calls() if d.name.rsplit("::", 1)[-1] == "len" and not d.dest[1]
+                        and ("Vec" in d.name or "[T]" in d.name or "slice" in d.name)}
+                for bb, i, st in f.stmts():
+                    if st[0] != "=" or st[2][0] != "bin" or st[2][1] not in ("Eq", "Ge", "Gt") or st[1][1]:
+                        continue
+                    a, b = st[2][2], st[2][3]
+                    if a[0] == "k" or b[0] != "k" or not isinstance(b[2], int) or isinstance(b[2], bool):
+                        continue
+                    src = a[1][0]
+                    if src not in lens and not (f.single_def(src) and f.single_def(src)[1] == "assign" and not isinstance(f.single_def(src)[2], Call)
+                                                and f.single_def(src)[2][2][0] == "use" and op_local(f.single_def(src)[2][2][1]) in lens):
+                        continue
+                    implies = (st[2][1] == "Eq" and b[2] > idx) or (st[2][1] == "Ge" and b[2] > idx) or (st[2][1] == "Gt" and b[2] >= idx)
+                    if not implies:
+                        continue
+                    for sw, tt, ff in bool_branches(f, st[1][0]):
+                        if tt is not None and edge_dominates(f, (sw, tt), c.bb):
+                            guarded = True
             r.instance(rid, "%s reads path[%d]" % (short(f.id).split("::{closure")[0], c.args[1][2]), "ok" if guarded else "violation", c.loc())
             if not guarded:
                 r.violation(rid, "%s indexes a use-tree path without knowing it is non-empty" % short(f.id).split("::{closure")[0],
